@@ -74,9 +74,14 @@ func Load(repo string) (*Prog, error) {
 	InlinedAway, inlinedSites = map[types.Object]bool{}, map[types.Object]int{}
 	for _, pk := range pkgs {
 		if strings.HasPrefix(pk.PkgPath, ModPath) && pk.TypesInfo != nil {
-			inlineHelpers(pk.TypesInfo, pk.Syntax)
-			inlineHelpers(pk.TypesInfo, pk.Syntax) // a helper written in terms of another one
+			inlineHelpers(pk.Fset, pk.Types, pk.TypesInfo, pk.Syntax)
+			inlineHelpers(pk.Fset, pk.Types, pk.TypesInfo, pk.Syntax) // a helper written in terms of another one
 			markInlinedAway(pk.TypesInfo, pk.Syntax)
+			if os.Getenv("FPCHECK_DEBUG_INLINE") != "" {
+				for o, n := range inlinedSites {
+					fmt.Fprintf(os.Stderr, "inlined %s at %d sites (away=%v)\n", o.Name(), n, InlinedAway[o])
+				}
+			}
 			specialiseConstParams(pk.TypesInfo, pk.Syntax)
 			pruneConstIfs(pk.TypesInfo, pk.Syntax)
 		}
